@@ -232,6 +232,11 @@ func runCheck(prop, tier string, seed int, only string, verbose bool, workers in
 		if only != "" && !strings.Contains(name, only) {
 			continue
 		}
+		// harnesses whose bounds did not run clean within a session's budget are
+		// kept in the tree but are not part of any registered command
+		if strings.Contains(name, "_slow_") && os.Getenv("SYMGO_SLOW") == "" {
+			continue
+		}
 		res.Harnesses++
 		res.HarnessNames = append(res.HarnessNames, name)
 		for _, r := range sym.ReachMarkers(h) {
@@ -305,7 +310,7 @@ func runCheck(prop, tier string, seed int, only string, verbose bool, workers in
 			}
 		}
 		res.Violations = append(res.Violations, vr)
-		repro := strings.HasPrefix(vr.Outcome, "reproduced")
+		repro := outcomeMatches(v.ID, vr.Outcome)
 		switch {
 		case repro && vr.Known:
 			res.Known++
@@ -361,6 +366,37 @@ func runCheck(prop, tier string, seed int, only string, verbose bool, workers in
 		res.Verdict = "holds"
 	}
 	return res
+}
+
+// outcomeMatches: the native run must fail in the same way the model says
+// (same assertion id / same NoPanic region), not merely fail somehow.
+func outcomeMatches(id, outcome string) bool {
+	if !strings.HasPrefix(outcome, "reproduced: ") {
+		return false
+	}
+	o := strings.TrimPrefix(outcome, "reproduced: ")
+	if strings.HasPrefix(o, "crash") {
+		return strings.HasPrefix(id, "panic:") || strings.HasPrefix(id, "alloc")
+	}
+	for _, f := range strings.Split(o, " ;; ") {
+		switch {
+		case strings.HasPrefix(id, "assert:"):
+			if f == id {
+				return true
+			}
+		case strings.HasPrefix(id, "panic:"):
+			if strings.HasPrefix(f, id+" ") || f == id {
+				return true
+			}
+		case strings.HasPrefix(id, "alloc"):
+			if strings.HasPrefix(f, "alloc") {
+				return true
+			}
+		default:
+			return true
+		}
+	}
+	return false
 }
 
 func classOf(id string) string {
